@@ -2,5 +2,10 @@ package main
 
 // Every package that registers properties with eng.
 import (
+	_ "github.com/junioryono/godi/v4/verifh/conc"
+	_ "github.com/junioryono/godi/v4/verifh/core"
 	_ "github.com/junioryono/godi/v4/verifh/graphx"
+	_ "github.com/junioryono/godi/v4/verifh/leak"
+	_ "github.com/junioryono/godi/v4/verifh/regx"
+	_ "github.com/junioryono/godi/v4/verifh/web"
 )
